@@ -93,6 +93,8 @@ type Interp struct {
 	pools     map[*Object]*poolState
 	timeNow   int
 	mainDeferFr *frame
+	callStack []*frame
+	panicStack []string
 	onceDone  map[string]bool
 	funcsSeen map[*ssa.Function]bool
 	lastTime  *Term
@@ -439,9 +441,16 @@ func (it *Interp) callFunctionBody(caller *frame, fn *ssa.Function, args []Value
 	for i, fv := range fn.FreeVars {
 		fr.env[fv] = env[i]
 	}
+	it.callStack = append(it.callStack, fr)
 	defer func() {
 		it.depth--
 		r := recover()
+		if r != nil && it.panicStack == nil {
+			for _, f := range it.callStack {
+				it.panicStack = append(it.panicStack, it.site(f.cur))
+			}
+		}
+		it.callStack = it.callStack[:len(it.callStack)-1]
 		if r == nil && len(fr.defers) == 0 {
 			return
 		}
@@ -722,7 +731,7 @@ func (it *Interp) exec(fr *frame, instr ssa.Instruction) {
 	case *ssa.Slice:
 		fr.env[in] = it.sliceOp(fr, in)
 	case *ssa.MakeSlice:
-		fr.env[in] = it.makeSlice(fr, in.Type(), fr.get(in.Len).(*Term), fr.get(in.Cap).(*Term))
+		fr.env[in] = it.makeSlice(fr, in.Type(), it.toIndex(fr.get(in.Len), in.Len.Type()), it.toIndex(fr.get(in.Cap), in.Cap.Type()))
 	case *ssa.MakeInterface:
 		fr.env[in] = &IfaceV{t: in.X.Type(), v: fr.get(in.X)}
 	case *ssa.MakeClosure:
